@@ -852,6 +852,83 @@ pub fn real_unix_connect_full_backlog(r: &mut Report) {
     }
 }
 
+
+static TICKS: std::sync::atomic::AtomicU32 = std::sync::atomic::AtomicU32::new(0);
+extern "C" fn on_tick(_: libc::c_int) {
+    // after 1.5 s of ticks the timer stops itself, so that a call that restarts its time-out on every EINTR still ends
+    if TICKS.fetch_add(1, std::sync::atomic::Ordering::SeqCst) >= 150 {
+        let zero = libc::itimerval { it_interval: libc::timeval { tv_sec: 0, tv_usec: 0 }, it_value: libc::timeval { tv_sec: 0, tv_usec: 0 } };
+        unsafe { libc::syscall(libc::SYS_setitimer, libc::ITIMER_REAL, &zero as *const libc::itimerval, 0usize) };
+    }
+}
+
+/// REAL kernel, SAMPLED timing: `accept_with_timeout(100 ms)` on an idle listener while a 10 ms SIGALRM interval
+/// timer interrupts every ppoll: Timeout must be reported within [100 ms, 1 s].
+pub fn real_timed_accept_under_signals(r: &mut Report) {
+    use tiny_std::net::UnixListener;
+    unsafe {
+        r.eval();
+        r.nontrivial_unique();
+        let dir = format!("/tmp/h-net-sig-{}", libc::getpid());
+        let _ = std::fs::remove_dir_all(&dir);
+        std::fs::create_dir_all(&dir).expect("tmp dir");
+        let p = format!("{dir}/l\0");
+        let path = tiny_std::UnixStr::try_from_str(&p).expect("path");
+        let mut l = match UnixListener::bind(path) {
+            Ok(l) => l,
+            Err(e) => {
+                r.cap(format!("real timed accept: bind failed: {e}"));
+                return;
+            }
+        };
+        let mut sa: libc::sigaction = std::mem::zeroed();
+        sa.sa_sigaction = on_tick as usize; // no SA_RESTART
+        libc::sigemptyset(&mut sa.sa_mask);
+        let mut old: libc::sigaction = std::mem::zeroed();
+        libc::sigaction(libc::SIGALRM, &sa, &mut old);
+        TICKS.store(0, std::sync::atomic::Ordering::SeqCst);
+        let tick = libc::timeval { tv_sec: 0, tv_usec: 10_000 };
+        let it = libc::itimerval { it_interval: tick, it_value: tick };
+        libc::syscall(libc::SYS_setitimer, libc::ITIMER_REAL, &it as *const libc::itimerval, 0usize);
+        let t0 = mono_ns();
+        let res = catch(|| l.accept_with_timeout(Duration::from_millis(100)));
+        let ms = (mono_ns() - t0) / 1_000_000;
+        let zero = libc::itimerval { it_interval: libc::timeval { tv_sec: 0, tv_usec: 0 }, it_value: libc::timeval { tv_sec: 0, tv_usec: 0 } };
+        libc::syscall(libc::SYS_setitimer, libc::ITIMER_REAL, &zero as *const libc::itimerval, 0usize);
+        libc::sigaction(libc::SIGALRM, &old, std::ptr::null_mut());
+        let ticks = TICKS.load(std::sync::atomic::Ordering::SeqCst);
+        let rep = json!({"phase": "real-timed-accept-under-signals"});
+        let what = match &res {
+            Ok(Ok(_)) => "Ok(stream)".to_string(),
+            Ok(Err(e)) => format!("{e}"),
+            Err(p) => format!("panic: {p}"),
+        };
+        r.sample(json!({"real": "accept_with_timeout(100 ms) under a 10 ms SIGALRM timer", "result": what, "ms": ms, "signals": ticks}));
+        let timeout = matches!(res, Ok(Err(tiny_std::Error::Timeout)));
+        if timeout && (100..=1000).contains(&ms) {
+            r.outcome("real-timed-accept-under-signals:timeout-within-bounds");
+        } else if timeout && ms < 100 {
+            r.outcome("real-timed-accept-under-signals:timeout-early");
+            r.violation("C16:UnixListener::accept_with_timeout:timeout-early", format!("REAL KERNEL (sampled timing): Timeout after {ms} ms with a limit of 100 ms ({ticks} signals)"), rep);
+        } else if ms > 1000 {
+            r.outcome("real-timed-accept-under-signals:limit-not-kept");
+            r.violation(
+                "C16:UnixListener::accept_with_timeout:timeout-restarted-after-EINTR",
+                format!(
+                    "REAL KERNEL (sampled timing): accept_with_timeout(100 ms) on an idle listener under a 10 ms SIGALRM interval timer returned `{what}` only after {ms} ms \
+                     ({ticks} signals; the timer stops itself after 1.5 s): every EINTR restarted the full time-out instead of continuing with the time the kernel left in the timespec"
+                ),
+                rep,
+            );
+        } else {
+            r.outcome("real-timed-accept-under-signals:other");
+            r.note(format!("real timed accept under signals: `{what}` after {ms} ms"));
+        }
+        drop(l);
+        let _ = std::fs::remove_dir_all(&dir);
+    }
+}
+
 /// Run the witnesses in a forked child (signals, timers) and return its report.
 pub fn run(out: &str) -> Report {
     let items = vec![isolated("conformance", || {
@@ -878,6 +955,12 @@ pub fn phase(args: &Args) -> Report {
         r
     })];
     r.merge(run_isolated(items, &format!("{}.ucf", args.out), "C16"));
+    let items = vec![isolated("real-timed-accept-under-signals", || {
+        let mut r = Report::new();
+        real_timed_accept_under_signals(&mut r);
+        r
+    })];
+    r.merge(run_isolated(items, &format!("{}.tas", args.out), "C16"));
     let items = vec![isolated("real-exec-eof", || {
         let mut r = Report::new();
         real_exec_eof(&mut r);
@@ -888,7 +971,7 @@ pub fn phase(args: &Args) -> Report {
               not ready with zero time-out, 0 at/after the time-out, EINTR with the remaining time written back, readiness followed by progress; accept4: EAGAIN / descriptor; \
               unix connect: 0 / ECONNREFUSED / EAGAIN on a full backlog then 0; TCP connect: EINPROGRESS then POLLOUT then SO_ERROR 0 and second connect 0, ECONNREFUSED, \
               EALREADY while in progress; blocking-mode read / accept4 observed asleep in the kernel for 50 ms through /proc/self/task/<tid>/{syscall,stat}) is driven on the REAL kernel with non-blocking socket pairs and loopback TCP through libc; one evaluation = one kind; plus one real-kernel \
-              run of TcpStreamInProgress::connect_blocking on a connection that is still in progress and one of UnixStream::connect against a full accept queue whose owner accepts 200 ms later; plus (SAMPLED timing, 500 ms deadline) for every accept / connect variant of both families \
+              run of TcpStreamInProgress::connect_blocking on a connection that is still in progress and one of UnixStream::connect against a full accept queue whose owner accepts 200 ms later; one (SAMPLED timing) accept_with_timeout(100 ms) under a 10 ms SIGALRM interval timer that must report Timeout within [100 ms, 1 s]; plus (SAMPLED timing, 500 ms deadline) for every accept / connect variant of both families \
               x {no child, a real fork+exec of this executable in sleep mode between obtaining and dropping the stream}: the libc peer's read must report end-of-stream after the drop"
         .into();
     r.bound("kinds", r.evaluations);
